@@ -263,7 +263,9 @@ def build_cases(rng, tier, cov):
             n = 0
         for v, mop, marg in (("ctor.nd", "mk_nd", [n, d, 1]), ("q.init.nd", "q_init_nd", [n, d])):
             add(v, 1, [n, d], mop, marg, "throw" if d == 0 else "ratc", None if d == 0 else Fraction(n, d))
-        redarg = rng.choice([0, 1, 1, 2])
+        redarg = rng.choice([0, 1, 2, -1])
+        if redarg != 1 and d and rng.chance(1, 2):
+            g = rng.choice([2, 3, 10, 2**32]); n, d = n * g, d * g
         if d == 0:
             add("ctor.nd.red", 1, [n, d, redarg], "mk_nd", [n, d, redarg], "throw", None)
         elif redarg == 1:
@@ -276,7 +278,7 @@ def build_cases(rng, tier, cov):
         sep = rng.choice(["/", "_/", "/_", "_/_", "__/__"])
         hasden = rng.chance(3, 4)
         dd = d if d else 5
-        txt = ("%d%s%d" % (n, sep, dd)) if hasden else "%d" % n
+        txt = ("%d%s%d" % (n, sep, dd)) if hasden else "%d%s" % (n, rng.choice(["", "_", "__"]))
         for v in ("ctor.string", "io.read", "q.init.cstr"):
             add(v, 1, [txt], "of_text", [n, 1 if hasden else 0, dd], "ratc", Fraction(n, dd) if hasden else Fraction(n))
     # ---- doubles (both flag settings)
@@ -333,8 +335,10 @@ def build_cases(rng, tier, cov):
         h = (rng.range(-9, 9) * 2 + 1, 2)   # exact halves
         for w in (h, (gen_int(rng, 2) * 2 + 1, 2)):
             add("round", 1, flat(w), "round", flat(w), "raw", str(round_away(fr(w))))
-        add("preds", 1, flat(x), "preds", flat(x), "raw",
-            "%d %d %d %d %d" % (fx == 0, fx == 1, fx == -1, fx.denominator == 1, sg(fx)), nontrivial=False)
+        for w in (x, (rng.choice([1, -1]), rng.choice([1, 2, 3, 2**64]))):
+            fw = fr(w)
+            add("preds", 1, flat(w), "preds", flat(w), "raw",
+                "%d %d %d %d %d" % (fw == 0, fw == 1, fw == -1, fw.denominator == 1, sg(fw)), nontrivial=False)
         # powers
         y = rng.choice([0, 1, 2, 3, rng.range(0, 9)])
         if abs(x[0]).bit_length() + x[1].bit_length() > 200:
